@@ -231,6 +231,10 @@ class Intervals:
                 if rng:
                     name, first, end, step = rng
                     in_init = any(v.get('k') == 'var' and v.get('name') == name for v in walk(n.get('init') or {}))
+                    if not in_init:
+                        # declared in front of the loop: the value after the loop counts only when somebody reads it there
+                        inside = {id(x) for x in walk(n)}
+                        in_init = not any(x.get('k') == 'ref' and x.get('name') == name and id(x) not in inside for x in walk(func.get('body')))
                     if step > 0:
                         lo, hi = first, max(first, end - 1)
                         if not in_init:
@@ -412,6 +416,12 @@ class Intervals:
                 mt = n
                 break
         if mt is None:
+            for n in walk(rets[0]['e']):
+                if n.get('k') == 'construct' and str(n.get('cls', '')).startswith(('std::tuple<', 'std::pair<')) and not n.get('copymove') \
+                        and len(n.get('args', [])) >= 2 and not any('tuple<' in str(a.get('t', '')) for a in n['args'] if isinstance(a, dict)):
+                    mt = n            # std::tuple<T...>(e0, e1, ...) / std::pair, element-wise
+                    break
+        if mt is None:
             return None
         pen = {}
         for i, p in enumerate(callee.get('params', [])):
@@ -540,6 +550,13 @@ class Intervals:
                 return clamp(r, t) if r is not None else tr
             return tr
         if k == 'cond':
+            cc = const_value(unwrap_casts(e.get('c'))) if isinstance(e.get('c'), dict) else None
+            if cc is None and isinstance(e.get('c'), dict):
+                cc = const_value(e.get('c'))
+            if cc is not None:
+                # a selection on a compile-time constant (per-instantiation `NeedExpansion ? x : y`): only the live arm
+                r = sub(e.get('a') if cc else e.get('b'))
+                return r if r is not None else tr
             a = sub(e.get('a'))
             b = sub(e.get('b'))
             j = join(a, b)
